@@ -62,7 +62,7 @@ int main(int argc, char** argv){
     else if (mut == "sm_zero") { sm.clear(); consistent = false; } else if (mut == "sm_one") { sm.resize(1); } else if (mut == "sm_long") { sm.push_back(vs_q(1, 1)); if (ND == 1) sm.push_back(vs_q(1, 1)); consistent = false; }
     else if (mut == "po_zero") { po.clear(); consistent = false; } else if (mut == "po_one") { po.resize(1); may_either = true; }   /* the shared penalty order may exceed the order of another dimension */ else if (mut == "po_long") { po.push_back(1); if (ND == 1) po.push_back(1); consistent = false; }
     else if (mut == "monodim_last") { monodim = ND - 1; } else if (mut == "monodim_eq") { monodim = ND; consistent = false; } else if (mut == "monodim_big") { monodim = 7; consistent = false; }
-    else if (mut == "idx_eq_range") { idx[0][R - 1] = ranges[0]; consistent = false; } else if (mut == "idx_huge") { idx[ND - 1][0] = 0xffffffffu; consistent = false; }
+    else if (mut == "idx_eq_range") { idx[0][R - 1] = ranges[0]; consistent = false; } else if (mut == "range_gt_coords") { ranges[0] += 3; consistent = false; }   /* declared index range larger than the coordinate vector although every index used is inside it */ else if (mut == "range_gt_coords_last") { ranges[ND - 1] += 1; consistent = false; } else if (mut == "idx_huge") { idx[ND - 1][0] = 0xffffffffu; consistent = false; }
     else if (mut == "coords_short") { co[0].pop_back(); consistent = false; }                                   // coordinate vector shorter than the declared index range
     else if (mut == "coords_empty") { co[ND - 1].clear(); consistent = false; }
     else if (mut == "knots_unsorted") { std::swap(kn[0][1], kn[0][2]); consistent = false; }
